@@ -9,7 +9,7 @@ import (
 // HPeerArgs (C08): the argument lines a daemon client (or an SSH session) sends are parsed
 // by ParseArguments inside the serving process. For every option the parser's tables know
 // (long and short spelling; with an attached argument of a few shapes where the option
-// takes one) parsing must come back with a result or an error - never terminate the
+// takes one; flags repeated 1..8 times, separately or bundled as -vvv) parsing must come back with a result or an error - never terminate the
 // process or panic.
 func HPeerArgs() {
 	env := &rsyncos.Env{Stdout: io.Discard, Stderr: io.Discard}
@@ -38,7 +38,19 @@ func HPeerArgs() {
 			args = append(args, tok, argv)
 		}
 	} else {
-		args = append(args, tok)
+		// flags may be repeated (-vvvvvv, --verbose --verbose ...): counters index tables
+		rep := nd_range(1, 8)
+		if opt.shortName != "" && nd_bool() {
+			b := "-"
+			for k := 0; k < rep; k++ {
+				b += opt.shortName
+			}
+			args = append(args, b)
+		} else {
+			for k := 0; k < rep; k++ {
+				args = append(args, tok)
+			}
+		}
 	}
 	args = append(args, ".", "mod/")
 	pc := NewContext(NewOptionsWithGokrazyDefaults(env))
